@@ -9,7 +9,7 @@ cp -r /repo/include /repo/examples /repo/tests /repo/CMakeLists.txt "$scratch"/ 
 cd "$(dirname "$0")/.."
 rcs=""
 for p in "$@"; do
-  BSV_REPO="$scratch" BSV_EVIDENCE_DIR="${MUTEV:-$scratch/evidence}" python3 bin/bsv.py check "$p" 2>&1 | grep -v "^proved" | cut -c1-400
+  BSV_REPO="$scratch" BSV_EVIDENCE_DIR="${MUTEV:-$scratch/evidence}" bin/check "$p" 2>&1 | grep -v "^proved" | cut -c1-400
   rcs="$rcs $p:${PIPESTATUS[0]}"
 done
 echo "RESULT$rcs"
